@@ -178,9 +178,9 @@ def composition(cname, psel, pstride):
     return fn
 
 
-QUICK = ['hcp', 'l12', 'rect2', 'honeycomb', 'bccoct', 'diamond', 'tetra-polar-abx2']
+QUICK = ['hcp', 'l12', 'rect2', 'honeycomb', 'bccoct', 'diamond', 'tetra-polar-abx2', 'wurtzite-o', 'mono-glide']
 THOROUGH = ['sc', 'fcc', 'bcc', 'hcp', 'diamond', 'b2', 'l12', 'nbo', 'bccoct', 'hcpoct', 'square', 'rect2', 'tria',
-            'honeycomb', 'rumpled', 'mono', 'afm-square', 'afm-bcc']
+            'honeycomb', 'rumpled', 'mono', 'afm-square', 'afm-bcc', 'wurtzite-o', 'mono-glide', 'tetra-polar-abx2']
 
 
 def sections(tier):
